@@ -104,6 +104,16 @@ class NanTaint:
             if name in ("full", "full_like", "tensor"):
                 return any(self.tainted(fi, a, T, sg) for a in args)
             return False
+        # x.masked_fill(isnan(x), c) / torch.masked_fill(x, isnan(x), c) is clean when c is clean
+        if name in ("masked_fill", "masked_fill_"):
+            if isinstance(f, ast.Attribute) and norm(f.value) not in ("torch",) and len(c.args) == 2:
+                x, mask, fillv = f.value, c.args[0], c.args[1]
+            elif len(c.args) == 3:
+                x, mask, fillv = c.args
+            else:
+                x = mask = fillv = None
+            if x is not None and isinstance(x, (ast.Name, ast.Attribute, ast.Subscript)) and self._is_isnan_of(fi, mask, norm(x), fi.node):
+                return self.tainted(fi, fillv, T, sg)
         if name == "where" and len(c.args) == 3:
             cond, a, b = c.args
             # where(isnan(x), c, x) is clean when c is clean
